@@ -48,6 +48,7 @@ def _build(tier="quick"):
     c_elementtables.register(reg)
     c_elementtables.register_quadrature(reg)
     c_elementtables.register_mte(reg)
+    c_elementtables.register_offsets(reg)
     from contracts import c_analysis
 
     c_analysis.register(reg)
